@@ -46,6 +46,13 @@ Theorem C17_write_session_succeeds : forall d n m chunks,
 Proof. exact write_session_succeeds. Qed.
 Print Assumptions C17_write_session_succeeds.
 
+(* ... and touches nothing else: every other path keeps its entry (file bytes or directory) through a whole write
+   session — open (truncation / creation), every write call, close *)
+Theorem C17_write_touches_only_its_path : forall d n m chunks d' n',
+  write_session d n m chunks = Some d' -> n' <> n -> dfind d' n' = dfind d n'.
+Proof. exact write_session_frame. Qed.
+Print Assumptions C17_write_touches_only_its_path.
+
 (* opening a missing file for reading fails with NotFound; opening a directory fails with NotFile in every mode *)
 Theorem C17_open_errors : forall d n m,
   (dfind d n = None -> is_write_mode m = false -> file_open d n m = inl NotFound) /\
